@@ -732,7 +732,9 @@ def worker_clients(seed, tier):
                                  'got': ['after the race: ' + str(again)[:200]]})
                 return
 
-    def race_mixed(name, fresh, accesses, nthreads=12, nrounds=None):
+    srng = random.Random(seed)
+
+    def race_mixed(name, fresh, accesses, nthreads=12, nrounds=None, stagger=0.012):
         """like race(), but thread i performs accesses[i % len(accesses)] = (access, canon): the
         FIRST accesses of different kinds to one shared fresh object happen at once"""
         expected = [canon(access(fresh())) for access, canon in accesses]
@@ -740,11 +742,16 @@ def worker_clients(seed, tier):
             obj = fresh()
             bar = threading.Barrier(nthreads)
             got = [None] * nthreads
+            # staggered starts (seeded, up to `stagger` seconds; growing with the round): a late thread
+            # can meet what an early one has half published
+            naps = [0.0 if i == 0 else srng.random() * stagger * (1 + rd % 3) / 3 for i in range(nthreads)]
 
             def client(i):
                 access, canon = accesses[i % len(accesses)]
                 try:
                     bar.wait()
+                    if naps[i]:
+                        time.sleep(naps[i])
                     got[i] = ('ok', canon(access(obj)))
                 except Exception as e:  # noqa: BLE001
                     got[i] = ('raised', f'{type(e).__name__}: {str(e)[:120]}')
@@ -793,7 +800,7 @@ def worker_clients(seed, tier):
          lambda r: _h([sorted(np.asarray(r[0]).tolist()), sorted(np.asarray(r[1]).tolist())])),
     ]
     race_mixed('PointArray 250k with missing: bounds / sindex / cx at once',
-               lambda: PointArray(big.data, dtype=big.dtype), big_accesses, nrounds=3 if tier == 'quick' else 12)
+               lambda: PointArray(big.data, dtype=big.dtype), big_accesses, nrounds=8 if tier == 'quick' else 30)
     big_ids = np.arange(nbig)
     race_mixed('GeoSeries 250k with missing: cx / sindex at once',
                lambda: GeoSeries(PointArray(big.data, dtype=big.dtype), index=big_ids),
@@ -806,7 +813,7 @@ def worker_clients(seed, tier):
                lambda: GeoDataFrame({'pt': PointArray(big.data, dtype=big.dtype), 'id': big_ids}),
                [(lambda d: d.build_sindex().cx[obox[0]:obox[2], obox[1]:obox[3]],
                  lambda r: _h(sorted(r['id'].tolist())))],
-               nrounds=2 if tier == 'quick' else 8)
+               nrounds=3 if tier == 'quick' else 12)
 
     pts = df0['pt'].array
     pgs = df0['pg'].array
